@@ -125,6 +125,8 @@ def run_shard(cases, sub_seed):
         open(other, "wb").write(b"another ascii object\n")
         docp = os.path.join(scratch, "doc.xml")
         open(docp, "wb").write(b"<?xml version='1.0'?><sysmeta>ascii</sysmeta>\n")
+        docx = os.path.join(scratch, "docx.xml")
+        open(docx, "wb").write(b"<other-format>a different ascii document for fmtX</other-format>\n")
         templates = {}
         for state in ("empty", "populated"):
             root = os.path.join(scratch, "tmpl_" + state)
@@ -133,7 +135,7 @@ def run_shard(cases, sub_seed):
                 st.store_object("k1", other)
                 st.store_object("k2", other)
                 st.store_metadata("k1", docp)
-                st.store_metadata("k1", docp, "fmtX")
+                st.store_metadata("k1", docx, "fmtX")
             templates[state] = root
         for n, (verb, sub, variant, state, pid) in enumerate(cases):
             res.evaluations += 1
